@@ -1,5 +1,10 @@
 pub mod c05;
 pub mod c06;
+pub mod c07;
+pub mod c08;
+pub mod c10;
+pub mod c11;
+pub mod c12;
 
 use crate::exec::Engine;
 
@@ -7,6 +12,11 @@ pub fn get(prop: &str) -> Option<&'static dyn Engine> {
     Some(match prop {
         "C05" => &c05::C05,
         "C06" => &c06::C06,
+        "C07" => &c07::C07,
+        "C08" => &c08::C08,
+        "C10" => &c10::C10,
+        "C11" => &c11::C11,
+        "C12" => &c12::C12,
         _ => return None,
     })
 }
